@@ -66,6 +66,8 @@ def find_plateaus(
         else sc.index(min_n_points)
     )
     derivative = _derive(data)
+    # float64 because an integer tolerance would be rounded by the unit conversion
+    atol = atol.to(dtype="float64", copy=False)
     group_id = sc.cumsum(
         (abs(derivative) > atol.to(unit=derivative.unit)).to(dtype="int64")
     )
